@@ -8,6 +8,7 @@ import Ndt.Model.Dea
 import Ndt.Model.Steps
 import Ndt.Model.Guards
 import Ndt.Model.Select
+import Ndt.Model.Diff
 import Ndt.Gen.BicomplexRing
 /-! The line-protocol driver: one operation per input line, one output line per input line. -/
 namespace Ndt.Driver
@@ -81,8 +82,37 @@ def bestStr (b : Best Float) : String :=
   joinSp (b.value.map toHex) ++ " | " ++ joinSp (b.err.map toHex) ++ " | " ++ joinSp (b.step.map toHex) ++ " | " ++
     joinSp (b.index.map toString)
 
+instance : OfNat Rat 2 := ⟨2⟩
+
+/-- the scalar difference quotient `name` of the polynomial with rational coefficients `cs` (in `t`) -/
+def quotRat (name : String) (cs : List Rat) (x h : Rat) : Option Rat :=
+  let f : Rat → Rat := fun t => evalP cs t
+  let fc : Cx Rat → Cx Rat := fun z => evalP (cs.map Cx.ofReal) z
+  match name with
+  | "_central" => some (dCentral f (f x) x h)
+  | "_central_even" => some (dCentralEven f (f x) x h)
+  | "_forward" => some (dForward f (f x) x h)
+  | "_backward" => some (dBackward f (f x) x h)
+  | "_complex" => some (dComplex fc x h)
+  | _ => none
+
 def handle (w : List String) : String :=
   match w with
+  -- diffname method n order: the name LogRule.diff resolves to
+  | ["diffname", m, n, o] =>
+    match diffName ⟨n.toNat!, Method.ofString m, o.toNat!⟩ with
+    | some d => d.toString
+    | none => "AttributeError"
+  -- quot name x h | coeffs… : a scalar difference quotient of a rational polynomial (exact)
+  | "quot" :: name :: x :: h :: "|" :: cs =>
+    match quotRat name (rats cs) (rq x) (rq h) with
+    | some v => ratStr v
+    | none => "unsupported"
+  -- fdapply ρ method n order | diffs… | steps… : LogRule._apply on one column (exact)
+  | "fdapply" :: rho :: m :: n :: o :: rest =>
+    match splitBar rest with
+    | [_, diffs, steps] => joinSp ((fdApply (rq rho) ⟨n.toNat!, Method.ofString m, o.toNat!⟩ (rats diffs) (rats steps)).map ratStr)
+    | _ => "bad-op"
   -- select nrows ncols | der… | errs… | steps…   (Float): _get_best_estimate
   | "select" :: nr :: nc :: rest =>
     match splitBar rest with
